@@ -29,10 +29,7 @@ def pollLoop {α : Type} (f : α → Tick) : Nat → List α → PollRes × Nat 
     match f x with
     | .done => (.ok, b, xs)
     | .abort => (.aborted, b, xs)
-    | .retry =>
-      match b with
-      | 0 => (.deadline, 0, xs)
-      | b + 1 => pollLoop f b xs
+    | .retry => if b = 0 then (.deadline, 0, xs) else pollLoop f (b - 1) xs
 
 /-- `checkFile(PidFile)`: nil error | `fs.ErrNotExist` | any other error -/
 inductive PidObs | present | missing | statErr
